@@ -30,7 +30,11 @@ type C18Case struct {
 
 func init() { register("C18", checkC18) }
 
-var c18Universe = []string{"alpha.lua", "beta.lua", "mods/alpha.lua", "mods/gamma.lua", "pkg/init.lua", "deep/x/yy.lua", "deep/x/init.lua", "lib/delta.lua", "epsilon.so"}
+var c18Universe = []string{"alpha.lua", "beta.lua", "mods/alpha.lua", "mods/gamma.lua", "pkg/init.lua", "deep/x/yy.lua", "deep/x/init.lua", "lib/delta.lua",
+	"lib/gamma/gamma.lua", "third/gamma.lua", "lib/delta/delta.lua", "epsilon.so"}
+
+// c18Users: the files that hold the require / dofile calls (the same calls in each): one at the root, one in a folder
+var c18Users = []string{"main.lua", "lib/user.lua"}
 
 var c18Mods = []string{"alpha", "beta", "gamma", "mods.alpha", "mods.gamma", "mods/gamma", "pkg", "deep.x.yy", "x.yy", "yy", "deep.x", "delta", "lib.delta",
 	"nothere", "mods.nothere", "deep.nothere.yy", "epsilon", "lib/delta", "deep/x/yy"}
@@ -101,47 +105,61 @@ func c18Candidates(mod string, suffixed bool, files map[string]bool) (cands []st
 func checkC18(c C18Case, env *Env) *Violation {
 	var main strings.Builder
 	type ref struct {
+		user     int // index into c18Users
 		mod      string
 		suffixed bool
 		line     int
 		col      int // a column inside the string
+		probeCol int // column of `probe` in the line after a require (-1 for dofile)
 	}
 	var refs []ref
 	line := 0
 	for i, m := range c.Mods {
 		pre := fmt.Sprintf("local m%d = require(\"", i)
-		fmt.Fprintf(&main, "%s%s\")\nprint(m%d)\n", pre, m, i)
-		refs = append(refs, ref{m, false, line, len(pre) + 1})
+		use := fmt.Sprintf("m%d.", i)
+		fmt.Fprintf(&main, "%s%s\")\n%sprobe()\n", pre, m, use)
+		refs = append(refs, ref{0, m, false, line, len(pre) + 1, len(use) + 1})
 		line += 2
 	}
 	for _, d := range c.Dofiles {
 		pre := "dofile(\""
 		fmt.Fprintf(&main, "%s%s\")\n", pre, d)
-		refs = append(refs, ref{d, true, line, len(pre) + 1})
+		refs = append(refs, ref{0, d, true, line, len(pre) + 1, -1})
 		line++
 	}
 	mainText := main.String()
-	files := map[string]bool{"main.lua": true}
+	// the second requiring file holds the same calls
+	for _, rf := range append([]ref{}, refs...) {
+		rf.user = 1
+		refs = append(refs, rf)
+	}
+	files := map[string]bool{}
 	opts := harness.Flags(1, 6)
 	opts["RequirePathSeparator"] = c.Sep
 	req := &proto.Request{Cmd: "session", InitOptions: harness.J(opts)}
-	req.Files = append(req.Files, proto.File{Path: "main.lua", Data: []byte(mainText)})
+	for _, u := range c18Users {
+		files[u] = true
+		req.Files = append(req.Files, proto.File{Path: u, Data: []byte(mainText)})
+	}
 	content := func(f string) []byte {
 		if strings.HasSuffix(f, ".so") {
 			return []byte{0x7f, 'E', 'L', 'F'}
 		}
-		return []byte("local M = {}\nreturn M\n")
+		return []byte("local M = {}\nfunction M.probe()\nend\nreturn M\n")
 	}
 	for _, f := range c.Present {
 		files[f] = true
 		req.Files = append(req.Files, proto.File{Path: f, Data: content(f)})
 	}
-	req.Steps = append(req.Steps, harness.DidOpen("main.lua", mainText))
+	for _, u := range c18Users {
+		req.Steps = append(req.Steps, harness.DidOpen(u, mainText))
+	}
 	type round struct {
 		files map[string]bool
 		upto  int // diagnostics up to this step
 		def   []int
 		hov   []int
+		probe []int
 		desc  string
 	}
 	var rounds []round
@@ -151,10 +169,17 @@ func checkC18(c C18Case, env *Env) *Violation {
 			r.files[f] = true
 		}
 		for _, rf := range refs {
+			u := c18Users[rf.user]
 			r.def = append(r.def, len(req.Steps))
-			req.Steps = append(req.Steps, harness.Call("textDocument/definition", harness.TDPos("main.lua", rf.line, rf.col)))
+			req.Steps = append(req.Steps, harness.Call("textDocument/definition", harness.TDPos(u, rf.line, rf.col)))
 			r.hov = append(r.hov, len(req.Steps))
-			req.Steps = append(req.Steps, harness.Call("textDocument/hover", harness.TDPos("main.lua", rf.line, rf.col)))
+			req.Steps = append(req.Steps, harness.Call("textDocument/hover", harness.TDPos(u, rf.line, rf.col)))
+			r.probe = append(r.probe, len(req.Steps))
+			if rf.probeCol >= 0 {
+				req.Steps = append(req.Steps, harness.Call("textDocument/definition", harness.TDPos(u, rf.line+1, rf.probeCol)))
+			} else {
+				req.Steps = append(req.Steps, proto.Step{Op: "barrier"})
+			}
 		}
 		r.upto = len(req.Steps) - 1
 		rounds = append(rounds, r)
@@ -180,13 +205,17 @@ func checkC18(c C18Case, env *Env) *Violation {
 	changed := map[string]string{}
 	nt := false
 	for _, r := range rounds {
-		type6 := map[int]bool{}
-		for _, d := range harness.FoldDiags(o.Resp.Pushes, r.upto)[harness.URI("main.lua")] {
-			if d.Type == 6 {
-				type6[d.SL] = true
+		type6s := make([]map[int]bool, len(c18Users))
+		for ui, u := range c18Users {
+			type6s[ui] = map[int]bool{}
+			for _, d := range harness.FoldDiags(o.Resp.Pushes, r.upto)[harness.URI(u)] {
+				if d.Type == 6 {
+					type6s[ui][d.SL] = true
+				}
 			}
 		}
 		for i, rf := range refs {
+			type6 := type6s[rf.user]
 			cands, so := c18Candidates(rf.mod, rf.suffixed, r.files)
 			if so && len(cands) == 0 {
 				// a native module: tolerated (no diagnostic); definition / hover unspecified
@@ -244,15 +273,37 @@ func checkC18(c C18Case, env *Env) *Violation {
 			if hoverFile != "" && !(defFile == hoverFile || strings.HasSuffix(defFile, "/"+hoverFile)) {
 				return violf("hover-def-disagree", "after %s: hover on %s(%q) shows %q but go-to-definition opens %q\n%s", r.desc, what, rf.mod, hoverFile, defFile, c18Show(&c, mainText))
 			}
+			// the file the analysis actually loaded: where a member of the required module resolves to
+			if rf.probeCol >= 0 && defFile != "" {
+				if pres := harness.ResultOf(o.Resp, r.probe[i]); pres != nil && pres.Error == "" {
+					plocs, _ := parseLocations(pres.Result)
+					loaded := ""
+					for _, pl := range plocs {
+						if pl.File != c18Users[rf.user] {
+							loaded = pl.File
+						}
+					}
+					if loaded != "" {
+						env.Stats.Class("member-resolved-into-module")
+						if loaded != defFile {
+							return violf("loaded-vs-definition", "after %s: in %s go-to-definition on the string of require(%q) opens %q, but the analysis loaded %q (where m.probe resolves to)\n%s",
+								r.desc, c18Users[rf.user], rf.mod, defFile, loaded, c18Show(&c, mainText))
+						}
+					} else {
+						env.Stats.Class("member-not-resolved")
+					}
+				}
+			}
 			env.Stats.mu.Lock()
 			env.Stats.Queries++
 			env.Stats.mu.Unlock()
-			key := fmt.Sprint(cands)
-			if prev, ok := changed[rf.mod]; ok && prev != key {
+			key := fmt.Sprint(rf.user, cands)
+			ck := fmt.Sprint(rf.user, rf.mod)
+			if prev, ok := changed[ck]; ok && prev != key {
 				nt = true
 				env.Stats.Class("answer-changed-by-event")
 			}
-			changed[rf.mod] = key
+			changed[ck] = key
 			if strings.ContainsAny(rf.mod, "./") && len(cands) > 0 {
 				nt = true
 			}
@@ -269,7 +320,7 @@ func checkC18(c C18Case, env *Env) *Violation {
 }
 
 func c18Show(c *C18Case, mainText string) string {
-	return fmt.Sprintf("separator=%q present=%v events=%v\n--- main.lua\n%s", c.Sep, c.Present, c.Events, mainText)
+	return fmt.Sprintf("separator=%q present=%v events=%v\n--- main.lua and lib/user.lua\n%s", c.Sep, c.Present, c.Events, mainText)
 }
 
 func TestC18(t *testing.T) { runProp(t, "C18", genC18, checkC18) }
